@@ -158,3 +158,27 @@ def run(ctx):
                     chk.violation("R04.3", "stale-indices:%s" % caller, "%s copies a variable list onto %s without re-indexing its variable nodes: the n-th value is no longer bound to the n-th name" % (
                         caller, recv[:80]), loc(t["span"]))
     chk.floor("R04.3", "list-copy call sites", nsite, 4)
+
+    # ---- R04.4 re-indexing maps every variable node to the position of its OWN name
+    chk.rule("R04.4", "reset_vars: a variable node gets the index of the list entry EQUAL to its name")
+    rv = fb.find_bodies(lambda b: b["kind"] == "AssocFn" and b.get("name") == "reset_vars" and (b.get("impl_self_ty") or "").startswith("expression::deep::DeepEx<"))
+    if len(rv) != 1:
+        chk.violation("R04.4", "anchor", "DeepEx::reset_vars not found")
+    else:
+        b = rv[0]
+        org = eng.org(b)
+        pos = [t for _, t in mir.calls(b) if (mir.callee_path(t) or "").endswith("Iterator::position")]
+        lst = None
+        for i in range(1, b["arg_count"] + 1):
+            if "String" in b["locals"][i]["ty"]:
+                lst = "param:%s" % org.name(i)
+        ok = False
+        if len(pos) == 1:
+            recv = org.op_term(pos[0]["args"][0])
+            cl = org.op_term(pos[0]["args"][1])
+            if lst and lst in recv and eng.closure_equality(cl):
+                ok = True
+        if ok:
+            chk.ok("R04.4", "re-index by name equality in the new list", "", loc(b["span"]))
+        else:
+            chk.violation("R04.4", "reindex", "reset_vars does not look a variable up by equality of its name in the new list (a different variable's index may be assigned)", loc(b["span"]))
